@@ -19,7 +19,7 @@ pub fn prop() -> Prop {
         check,
         quick_runs: 16_000,
         both_profiles: false,
-        rule: "a run = a stream mixing all nine supported formats, unsupported DFs, zero-address frames, parity failures, length/DF mismatches and junk, under a -f subset (singletons, pairs, all, none, DFs that never occur), with/without -c, with --update=-1 (a refresh and counter line after every accepted frame) or positive intervals matched by simulated time steps; file source or TCP connections; silences of delete_after seconds and more inside a connection; non-trivial = at least one counter line was compared and (with -f) at least one frame was filtered out; distinct = distinct scripts",
+        rule: "a run = a stream mixing all nine supported formats, unsupported DFs, zero-address frames, parity failures, length/DF mismatches and junk, under a -f subset (singletons, pairs, all, none, DFs that never occur), with/without -c, with --update=-1 (a refresh and counter line after every accepted frame) or positive intervals matched by simulated time steps; file source or TCP connections; silences of delete_after seconds and more inside a connection; every 4 000th run index has 1050-1600 aircraft; 3 % of the runs visit all 32 downlink formats; silences with one frame in the middle; non-trivial = at least one counter line was compared and (with -f) at least one frame was filtered out; distinct = distinct scripts",
         level_text: "seeded exploration of mixed streams with the refresh driven by the simulated clock and stdout captured through the seam; oracle: reference per-DF counter over accepted, non-zero-address, filter-passing frames of the connection equals the printed counter line (ascending DF order), filtered frames change neither table nor output, no counter line without -c",
     }
 }
@@ -145,9 +145,12 @@ fn gen(rng: &mut Rng, idx: u64, tier: Tier) -> Case {
             let i = rng.range(1, lines.len() as i64 - 1) as usize;
             lines[i].0 = match rng.below(4) { 0 => d * 1_000_000, 1 => d * 1_000_000 + rng.range(1, 2_000_000), 2 => 3 * d * 1_000_000, _ => rng.range(d * 1_000_000, 2 * d * 1_000_000) };
             lines[i].2 = format!("{}:after-silence", lines[i].2.split(':').next().unwrap_or(""));
+            // sometimes one frame arrives in the middle of the silence
+            if rng.chance(0.4) && i >= 1 { let half = lines[i].0 / 2; lines[i].0 -= half; lines[i - 1].0 = half; }
         }
     }
     gen::long_uptime(rng, &mut lines, 0.03);
+    gen::near_time_boundary(rng, &mut lines, 0.02);
     let ch = *rng.pick(&[Chunking::Line, Chunking::Line, Chunking::Line, Chunking::Pieces, Chunking::Multi]);
     let mut script = Script::file(args, vec![]);
     script.tcp = rng.chance(0.3);
@@ -287,6 +290,26 @@ fn check(case: &Case, st: &mut Stats) -> Vec<Violation> {
         } else if passing > 0 && case.script.update() < 0 && !case.script.args.iter().any(|a| a.starts_with("--display-info=") && a.contains('Q')) {
             v.push(viol("C16.count", i, format!("with --update=-1 and -c every accepted frame refreshes the display, but no counter line followed {:?}", s.lines.iter().map(|l| crate::script::escape(l)).collect::<Vec<_>>()), json!({"missing": true})));
             break 'steps;
+        }
+    }
+    // non-interference: frames the filter excludes leave no trace at all - the run without them (every other
+    // line at the same instant) ends with the same table and the same last counter line
+    if v.is_empty() && filtered_seen > 0 && matches!(h.outcome, Outcome::FileOk | Outcome::SimEnd) {
+        let f = filter.clone().unwrap_or_default();
+        let (without, _) = super::c13::reduced_script(&case.script, &h, &|l| { let c = refm::classify(l); !(c.accepted && !f.contains(&c.df)) });
+        let hw = exec::run(&without);
+        st.executions += 1;
+        if std::mem::discriminant(&hw.outcome) == std::mem::discriminant(&h.outcome) {
+            st.probe("compared_with_run_without_excluded_frames");
+            if *hw.final_table != *h.final_table {
+                v.push(viol("C16.filtered-effect", h.steps.len().saturating_sub(1), format!("the table at the end differs from the table of the same stream without the {} frame(s) that -f {:?} excludes (without -> with): {}", filtered_seen, f, diff_snap(&hw.final_table, &h.final_table).join(" | ")), json!({"replayed": true})));
+            } else if with_c {
+                let last_line = |hh: &exec::History| hh.steps.iter().rev().find_map(|s| counter_lines(&s.out).last().map(|l| l.to_string()));
+                let (a, b) = (last_line(&hw), last_line(&h));
+                if a != b && a.is_some() && b.is_some() {
+                    v.push(viol("C16.filtered-effect", h.steps.len().saturating_sub(1), format!("the last counter line {:?} differs from {:?}, the last line of the same stream without the frames that -f {:?} excludes", b, a, f), json!({"replayed": true, "output": true})));
+                }
+            }
         }
     }
     if compared > 0 && (filter.is_none() || filtered_seen > 0) {
